@@ -54,7 +54,12 @@ func (g *genCtx) gen(depth int) (Amf0, *refVal) {
 		if g.concreteInStrict && g.inStrict > 0 {
 			vAssume(b)
 		}
-		return NewBoolean(b), &refVal{kind: 1, b: b}
+		tb := vU8() // the byte an independent encoder uses for true: any non-zero value
+		vAssume(tb != 0)
+		if g.concreteInStrict && g.inStrict > 0 {
+			vAssume(tb == 1)
+		}
+		return NewBoolean(b), &refVal{kind: 1, b: b, tb: tb}
 	case 2:
 		s := g.str(true)
 		return NewString(s), &refVal{kind: 2, s: s}
